@@ -299,6 +299,7 @@ type Loop struct {
 	ordinal int
 	spec    *LoopSpec
 	parent  *Loop
+	pos     token.Pos // smallest source position of an instruction of the loop
 }
 
 // findLoops computes natural loops (merged per head), ordered by the source
@@ -351,6 +352,7 @@ func findLoops(fn *ssa.Function) []*Loop {
 	})
 	for i, lp := range loops {
 		lp.ordinal = i
+		lp.pos = pos(lp)
 	}
 	// parents: smallest strictly containing loop
 	for _, lp := range loops {
@@ -681,7 +683,7 @@ func (fx *FuncExec) enterLoop(fn *ssa.Function, l *Loop, reach *Term, st *State,
 	fx.loopPre[l.head] = st.Clone()
 	// 1. invariant holds on entry
 	for _, c := range invs {
-		t, err := fx.evalClause(c, &cenv{fx: fx, fn: fn, st: st, old: fx.entryFor(fn), con: con, body: true, binds: map[string]Value{}, loopPre: fx.loopPre[l.head]})
+		t, err := fx.evalClause(c, &cenv{fx: fx, fn: fn, st: st, old: fx.entryFor(fn), con: con, body: true, binds: map[string]Value{}, loopPre: fx.loopPre[l.head], pos: l.pos})
 		if err != nil {
 			fx.addObl("shape", "inv:"+c.Label, err.Error(), reach, ts.False())
 			continue
@@ -774,7 +776,7 @@ func (fx *FuncExec) enterLoop(fn *ssa.Function, l *Loop, reach *Term, st *State,
 		}
 	}
 	for _, c := range invs {
-		t, err := fx.evalClause(c, &cenv{fx: fx, fn: fn, st: h, old: fx.entryFor(fn), con: con, body: true, binds: map[string]Value{}, loopPre: fx.loopPre[l.head]})
+		t, err := fx.evalClause(c, &cenv{fx: fx, fn: fn, st: h, old: fx.entryFor(fn), con: con, body: true, binds: map[string]Value{}, loopPre: fx.loopPre[l.head], pos: l.pos})
 		if err == nil {
 			fx.addFact(hreach, t)
 		}
@@ -1000,13 +1002,31 @@ func (fx *FuncExec) backEdge(fn *ssa.Function, l *Loop, n *node, cond *Term, st 
 	if l.spec == nil {
 		return
 	}
+	where := ""
+	if n != nil && n.blk != nil {
+		// the last positioned instruction before the jump back says which `continue` (or loop end) this is
+		for b := n.blk; b != nil && where == ""; {
+			for i := len(b.Instrs) - 1; i >= 0; i-- {
+				if p := b.Instrs[i].Pos(); p.IsValid() {
+					pos := fn.Prog.Fset.Position(p)
+					where = fmt.Sprintf(" [back edge after %s:%d]", shortFile(pos.Filename), pos.Line)
+					break
+				}
+			}
+			if where == "" && len(b.Preds) == 1 {
+				b = b.Preds[0]
+			} else {
+				break
+			}
+		}
+	}
 	for _, c := range l.spec.Invariants {
-		t, err := fx.evalClause(c, &cenv{fx: fx, fn: fn, st: st, old: fx.entryFor(fn), con: con, body: true, binds: map[string]Value{}, loopPre: fx.loopPre[l.head]})
+		t, err := fx.evalClause(c, &cenv{fx: fx, fn: fn, st: st, old: fx.entryFor(fn), con: con, body: true, binds: map[string]Value{}, loopPre: fx.loopPre[l.head], pos: l.pos})
 		if err != nil {
 			fx.addObl("shape", "inv:"+c.Label, err.Error(), cond, fx.ts.False())
 			continue
 		}
-		fx.addObl("inv-preserve", fmt.Sprintf("loop%d:%s", l.ordinal, c.Label), c.Expr, cond, t)
+		fx.addObl("inv-preserve", fmt.Sprintf("loop%d:%s", l.ordinal, c.Label), c.Expr+where, cond, t)
 	}
 	if d := l.spec.Decreases; d != nil {
 		// find the head state of the matching context
